@@ -74,22 +74,42 @@ let tok_of_op = function
   | OSeekable -> "k"
 let tok_of_log l = if l = [] then "-" else String.concat "," (List.map tok_of_op l)
 
+(* steps of consumption: - (none) or a comma list of c<k> (chunk iterator by k points) / p<n> (read_points n) *)
+let steps_of_tok s =
+  if s = "-" then [] else
+  List.map (fun t ->
+    let v = z_of_string (String.sub t 1 (String.length t - 1)) in
+    if t.[0] = 'c' then SChunks v else SPoints v) (String.split_on_char ',' s)
+(* read_evlrs: T / F / D (not given: the default of the source) *)
+let evlrs_of_tok s = if s = "D" then default_read_evlrs else bool_of_tok s
+let caps_of a = { c_seekable = bool_of_tok a.(0); c_readinto = bool_of_tok a.(1); c_has_seekable = bool_of_tok a.(2) }
+let rec split_every w l =
+  if l = [] then [] else
+  let rec take n l = if n = 0 then ([], l) else match l with [] -> ([], []) | x :: r -> let (a, b) = take (n - 1) r in (x :: a, b) in
+  let (a, b) = take w l in a :: split_every w b
+
 let dispatch cmd a =
   let zi i = z_of_string a.(i) in
   match cmd with
-  | "via" -> (* seekable readinto has_seekable read_evlrs chunk|- xfile : result | log | no_seek_tell *)
-    let c = { c_seekable = bool_of_tok a.(0); c_readinto = bool_of_tok a.(1); c_has_seekable = bool_of_tok a.(2) } in
-    let chunk = if a.(4) = "-" then None else Some (zi 4) in
-    let (r, log) = read_via c (bool_of_tok a.(3)) chunk (bytes_of_tok a.(5)) in
-    res tok_of_lasfile r ^ " | " ^ tok_of_log log ^ " | " ^ tok_of_bool (no_seek_tell log)
+  | "via" -> (* seekable readinto has_seekable read_evlrs steps xfile : result | log | no_seek_tell | only_offered *)
+    let c = caps_of a in
+    let (r, log) = read_via c (evlrs_of_tok a.(3)) (steps_of_tok a.(4)) (bytes_of_tok a.(5)) in
+    res tok_of_lasfile r ^ " | " ^ tok_of_log log ^ " | " ^ tok_of_bool (no_seek_tell log) ^ " | " ^ tok_of_bool (only_offered c log)
+  | "consume" -> (* the same without the final read(): the header the reader shows and the records handed out *)
+    let c = caps_of a in
+    let (r, log) = consume_via c (evlrs_of_tok a.(3)) (steps_of_tok a.(4)) (bytes_of_tok a.(5)) in
+    res tok_of_lasfile r ^ " | " ^ tok_of_log log ^ " | " ^ tok_of_bool (no_seek_tell log) ^ " | " ^ tok_of_bool (only_offered c log)
   | "open" -> (* seekable readinto has_seekable read_evlrs xfile : the header after laspy.open alone | log *)
-    let c = { c_seekable = bool_of_tok a.(0); c_readinto = bool_of_tok a.(1); c_has_seekable = bool_of_tok a.(2) } in
-    let (r, log) = open_via c (bool_of_tok a.(3)) (bytes_of_tok a.(4)) in
-    res (fun rh -> tok_of_lasfile { lf_h = rh; lf_points = [] }) r ^ " | " ^ tok_of_log log ^ " | " ^ tok_of_bool (no_seek_tell log)
+    let c = caps_of a in
+    let (r, log) = open_via c (evlrs_of_tok a.(3)) (bytes_of_tok a.(4)) in
+    res (fun rh -> tok_of_lasfile { lf_h = rh; lf_points = [] }) r ^ " | " ^ tok_of_log log ^ " | " ^ tok_of_bool (no_seek_tell log) ^ " | " ^ tok_of_bool (only_offered c log)
+  | "default" -> tok_of_bool default_read_evlrs
   | "mmap" -> res tok_of_lasfile (read_mmap (bytes_of_tok a.(0)))
   | "file" -> res tok_of_lasfile (read_file (bytes_of_tok a.(0)))
   | "set" -> (* xfile off ps i o xbytes *)
     tok_of_bytes (mmap_set (bytes_of_tok a.(0)) (zi 1) (zi 2) (zi 3) (zi 4) (bytes_of_tok a.(5)))
+  | "setdim" -> (* xfile off ps o w xvalues : one value of w bytes per record *)
+    tok_of_bytes (mmap_set_dim (bytes_of_tok a.(0)) (zi 1) (zi 2) (zi 3) (split_every (int_of_string a.(4)) (bytes_of_tok a.(5))))
   | _ -> "unknown-command " ^ cmd
 
 let () =
